@@ -259,6 +259,13 @@ fn gen_attr_string(w: &World, d: Dialect, is_key: bool) -> String {
     let mut s = match w.draw(14) {
         0 if !is_key => WORDS[w.draw(WORDS.len() as u64) as usize].to_string(),
         1 => string_from(w, attr_chars(d), 1, 200),
+        2 if w.chance(1, 12) => {
+            // a key or value of a boundary length (up to 16 KiB + 1): regex, csv and writer buffers
+            let n = crate::gen::magic_size(w, 14);
+            let c = *w.pick(attr_chars(d));
+            let c = if c == ' ' { 'x' } else { c };
+            std::iter::repeat(c).take(n).collect()
+        }
         _ => string_from(w, attr_chars(d), 1, 6),
     };
     if d == Dialect::Gff3 && is_key && s.starts_with(' ') {
